@@ -24,7 +24,7 @@ KL_c09_3 == UNION { Perms(Pool, k) : k \in 1..3 } \cup Perms({"K1", "K2", "K6", 
 KL_c09_4 == UNION { Perms(Pool, k) : k \in 1..4 }
 
 FaultOps == {"none", "svOdd", "sniNameType", "sniTwoNames", "innerSvOdd", "innerSniNameType", "innerTypeNo13", "dupEchBefore", "dupEchInnerBefore", "dupEchAfter", "eoeInOuter", "innerTypeInOuter", "badEchType", "emptyEnc", "sniNotPublic", "sniKelvin", "noOuterSni", "noInnerEch", "outerTypeInInner",
-             "innerNo13", "innerNoSv", "nonZeroPad", "eoeOdd", "eoeBadLen", "eoeOutOfOrder", "eoeRepeated", "eoeAmplify", "eoeMissing", "eoeRefsEch",
+             "innerNo13", "innerNoSv", "nonZeroPad", "eoeOdd", "eoeBadLen", "eoeNoData", "eoeEmptyList", "eoeOutOfOrder", "eoeRepeated", "eoeAmplify", "eoeMissing", "eoeRefsEch",
              "eoeRefsEoe", "eoeTwice", "eoeRefsSni"}
 TamperOps == {"none", "dupEchBefore", "dupEchInnerBefore", "dupEchAfter"} \cup Tampers
 PassOpsC == {"none", "noEch", "grease", "no13", "noSv", "innerTypeInOuter"}
